@@ -60,6 +60,10 @@ def gen_history(rng, tier, profile=None):
     ops = [["R", running]]
     n_sub = 0
     for _ in range(n_ops):
+        if n_sub and rng.random() < 0.04:
+            # a request the market refuses by design (tolerated by the caller); the market is then used normally
+            ops.append(["RF", rng.choice(RF_FORMS), rng.randrange(n_sub)])
+            continue
         r = rng.random() * (w_submit + w_cancel + w_step + w_toggle + w_x)
         if r < w_submit:
             is_buy = rng.random() < 0.5
@@ -189,6 +193,9 @@ def gen_churn_history(rng, tier):
             "fund_seed": rng.randrange(1 << 30), "scalars": None}
 
 
+RF_FORMS = ["order_for_another_market", "resubmission", "cancel_of_another_markets_order", "cancel_of_unsubmitted_order"]
+
+
 class DirectRun:
     def __init__(self, case):
         from pams.market import Market
@@ -281,6 +288,35 @@ class DirectRun:
         elif k == "X":
             if m.is_running:
                 m._execution()
+        elif k == "RF":
+            form = op[1]
+            old = self.submitted[op[2] % len(self.submitted)] if self.submitted else None
+            try:
+                if form == "order_for_another_market":
+                    m._add_order(Order(agent_id=0, market_id=m.market_id + 7, is_buy=bool(op[2] % 2), kind=LIMIT_ORDER,
+                                       volume=1 + op[2] % 3, price=m.get_market_price() + (op[2] % 5 - 2) * m.tick_size))
+                elif form == "resubmission":
+                    if old is None or old.order_id is None:
+                        return
+                    m._add_order(old)
+                elif form == "cancel_of_another_markets_order":
+                    if getattr(self, "other", None) is None:
+                        from pams.market import Market
+
+                        self.other = Market(market_id=m.market_id + 7, prng=random.Random(5), simulator=SimStub(), name="other")
+                        self.other.setup({"tickSize": m.tick_size, "marketPrice": self.case["p0"]})
+                        self.other._update_time(next_fundamental_price=self.case["p0"])
+                    o = Order(agent_id=0, market_id=m.market_id + 7, is_buy=bool(op[2] % 2), kind=LIMIT_ORDER, volume=2,
+                              price=self.case["p0"])
+                    self.other._add_order(o)
+                    m._cancel_order(Cancel(order=o))
+                else:
+                    m._cancel_order(Cancel(order=Order(agent_id=0, market_id=m.market_id, is_buy=bool(op[2] % 2),
+                                                       kind=LIMIT_ORDER, volume=1, price=self.case["p0"])))
+            except (ValueError, AssertionError):
+                taps.hits["refused_request:" + form] += 1
+            else:
+                taps.hits["REFUSAL-EXPECTED-BUT-ACCEPTED:" + form] += 1
         elif k == "XF":
             try:
                 m._execution()
